@@ -146,6 +146,34 @@ def oracle_checksum(col, case, nm, sub='checksum', path=None, data=None):
             os.unlink(path)
 
 
+def checksum_algorithms(col):
+    """Every algorithm name hashlib.algorithms_available offers (the
+    docstring points there), in the spelling hashlib lists it."""
+    from oslo_utils import fileutils
+    sub = 'checksum/algorithms'
+    data = blob(7, 70001)
+    with scratch_dir() as root:
+        nm = Namer(root)
+        path = nm.file(data)
+        for alg in sorted(hashlib.algorithms_available):
+            try:
+                h = hashlib.new(alg, data)
+                want = h.hexdigest()
+            except (TypeError, ValueError):
+                continue        # needs a length (shake_*) or is unusable
+            case = {'algorithm_name': alg, 'size': len(data)}
+            col.case(sub, alg, True, 'alg/listed', case)
+            try:
+                got = fileutils.compute_file_checksum(path, 4096, alg)
+            except Exception as e:
+                _bad(sub, 'compute_file_checksum(algorithm=%r) raised %r'
+                     % (alg, e), case)
+            if got != want:
+                _bad(sub, 'compute_file_checksum(algorithm=%r) = %r, '
+                     'hashlib says %r' % (alg, got, want), case)
+    col.exhaustive[sub] = True
+
+
 def checksum_special(col):
     """Files whose stat size says nothing about their content: procfs
     entries (st_size 0) and a FIFO fed by a writer thread."""
@@ -595,6 +623,14 @@ def oracle_fs(col, case, nm, sub='fs'):
             elif state == 'dir':
                 path = os.path.join(base, 'd')
                 os.mkdir(path)
+            elif state in ('link-to-dir', 'dir-via-link'):
+                # the work is already done when the path names a directory
+                # through a symlink (last component, or a parent)
+                os.makedirs(os.path.join(base, 'real', 'sub'))
+                os.symlink(os.path.join(base, 'real'),
+                           os.path.join(base, 'lnk'))
+                path = os.path.join(base, 'lnk') if state == 'link-to-dir' \
+                    else os.path.join(base, 'lnk', 'sub')
             elif state == 'file':
                 path = os.path.join(base, 'f')
                 with open(path, 'wb') as f:
@@ -616,7 +652,7 @@ def oracle_fs(col, case, nm, sub='fs'):
                     out = e
                 except Exception as e:
                     _bad(sub, 'ensure_tree raised %r' % (e,), case)
-                if state in ('fresh', 'dir'):
+                if state in ('fresh', 'dir', 'link-to-dir', 'dir-via-link'):
                     if out != 'ok':
                         _bad(sub, 'ensure_tree(%s path) raised %r on call %d'
                              % (state, out, call), case)
@@ -658,6 +694,17 @@ def oracle_fs(col, case, nm, sub='fs'):
                     f.write(b'x')
                 path = os.path.join(base, 'lnk')
                 os.symlink(os.path.join(base, 'f'), path)
+            elif state == 'via-link-dotdot':
+                # top/current/../name with current -> volumes/pool: the file
+                # is volumes/name; top/name is a bystander
+                os.makedirs(os.path.join(base, 'volumes', 'pool'))
+                os.makedirs(os.path.join(base, 'top'))
+                os.symlink(os.path.join(base, 'volumes', 'pool'),
+                           os.path.join(base, 'top', 'current'))
+                path = os.path.join(base, 'top', 'current', '..', 'name')
+                for pth in (path, os.path.join(base, 'top', 'name')):
+                    with open(pth, 'wb') as f:
+                        f.write(b'x')
             else:
                 raise core.HarnessError('bad state %r' % (state,))
             col.case(sub, (op, state), True, '%s/%s' % (op, state), case)
@@ -669,7 +716,8 @@ def oracle_fs(col, case, nm, sub='fs'):
                     out = e
                 except Exception as e:
                     _bad(sub, 'delete_if_exists raised %r' % (e,), case)
-                if state in ('file', 'missing', 'missing-parent', 'symlink'):
+                if state in ('file', 'missing', 'missing-parent', 'symlink',
+                             'via-link-dotdot'):
                     if out != 'ok':
                         _bad(sub, 'delete_if_exists(%s) raised %r on call %d'
                              % (state, out, call), case)
@@ -680,6 +728,10 @@ def oracle_fs(col, case, nm, sub='fs'):
                             os.path.join(base, 'f')):
                         _bad(sub, 'delete_if_exists removed the link target',
                              case)
+                    if state == 'via-link-dotdot' and not os.path.isfile(
+                            os.path.join(base, 'top', 'name')):
+                        _bad(sub, 'delete_if_exists removed another file '
+                             '(lexically normalised path)', case)
                 else:
                     if out == 'ok':
                         _bad(sub, 'delete_if_exists(%s) swallowed the error of '
@@ -704,10 +756,13 @@ def fs_family(col):
                                 'depth': depth, 'slash': slash}, nm, sub)
             oracle_fs(col, {'op': 'ensure_tree', 'state': 'dir',
                             'slash': slash}, nm, sub)
+            for st_ in ('link-to-dir', 'dir-via-link'):
+                oracle_fs(col, {'op': 'ensure_tree', 'state': st_,
+                                'slash': slash}, nm, sub)
         oracle_fs(col, {'op': 'ensure_tree', 'state': 'file'}, nm, sub)
         oracle_fs(col, {'op': 'ensure_tree', 'state': 'parent-file'}, nm, sub)
         for state in ('file', 'missing', 'missing-parent', 'dir',
-                      'parent-file', 'symlink'):
+                      'parent-file', 'symlink', 'via-link-dotdot'):
             oracle_fs(col, {'op': 'delete_if_exists', 'state': state}, nm, sub)
     col.exhaustive[sub] = True
 
@@ -929,6 +984,7 @@ def tasks(tier, seed):
     out.append(Task('ensure/concurrent', concurrent_ensure, nthreads=8,
                     rounds=30 if tier == 'quick' else 300))
     out.append(Task('checksum/special', checksum_special))
+    out.append(Task('checksum/algorithms', checksum_algorithms))
     for target in ('makedirs', 'tempfile', 'remove'):
         out.append(Task('errno', errno_family, target=target))
     for i in range(shards):
@@ -955,6 +1011,8 @@ def replay(rec):
                                  case['round'] + 1)
     if case.get('special'):
         return checksum_special(col)
+    if case.get('algorithm_name'):
+        return checksum_algorithms(col)
     with scratch_dir() as root:
         nm = Namer(root)
         if 'chunk' in case:
